@@ -3,14 +3,15 @@
 # Re-runs every archived seeded change (seeded/<id>/patch.diff, or patch.ported.diff when the original
 # no longer applies) against the current checks in a scratch worktree of /repo HEAD and reports
 # which are caught. The property checked is the one in meta.json, plus "also_checked_by" if present.
+# SCR=<dir> selects the scratch worktree (several runs may go in parallel with different ones).
 # Never touches /repo's working tree; the scratch worktree is removed at the end.
 set -u
 tier="${1:-quick}"; glob="${2:-*}"
-scr=/tmp/scr-regress
+scr="${SCR:-/tmp/scr-regress}"
 export GOFLAGS=-mod=mod GOPROXY=off GOSUMDB=off GOTOOLCHAIN=local
 git -C /repo worktree remove --force "$scr" 2>/dev/null
 git -C /repo worktree add -q --detach "$scr" HEAD || exit 3
-out=/verif/work/regress.$(date +%s).txt; mkdir -p /verif/work; : > "$out"
+out=/verif/work/regress.$(date +%s).$$.txt; mkdir -p /verif/work; : > "$out"
 for d in /verif/seeded/$glob/; do
   id=$(basename "$d"); prop=$(python3 -c "import json;print(json.load(open('$d/meta.json'))['property'])")
   also=$(python3 -c "import json;print(' '.join(json.load(open('$d/meta.json')).get('also_checked_by',[])))")
@@ -22,13 +23,14 @@ for d in /verif/seeded/$glob/; do
   (cd "$scr" && git apply "$patch")
   res=""
   for p in $prop $also; do
-    cd /verif && VERIF_REPO="$scr" ./check "$p" "$tier" > /verif/work/regress.out 2>&1; rc=$?
-    n=$(grep -c "^VIOLATION" /verif/work/regress.out)
-    cls=$(grep "^VIOLATION" /verif/work/regress.out | sed 's/.*class=\([^ ]*\).*/\1/' | sort | uniq -c | sort -rn | head -3 | awk '{printf "%s(%s) ", $2, $1}')
+    cd /verif && VERIF_REPO="$scr" ./check "$p" "$tier" > /verif/work/regress.out.$$ 2>&1; rc=$?
+    n=$(grep -c "^VIOLATION" /verif/work/regress.out.$$)
+    cls=$(grep "^VIOLATION" /verif/work/regress.out.$$ | sed 's/.*class=\([^ ]*\).*/\1/' | sort | uniq -c | sort -rn | head -3 | awk '{printf "%s(%s) ", $2, $1}')
     res="$res $p:exit=$rc,violations=$n $cls"
   done
   echo "$id$res" | tee -a "$out"
 done
 (cd "$scr" && git checkout -q -- . && git clean -qfd)
+rm -f /verif/work/regress.out.$$
 git -C /repo worktree remove --force "$scr"
 echo "summary in $out"
